@@ -23,7 +23,7 @@ import re
 
 import falcon
 
-from engine.api import REPO, HarnessModelError, cond, is_open, pick, task
+from engine.api import HarnessModelError, cond, is_open, pick, task
 from engine.reglob import reglobalize
 
 from vgi_rpc.http._unauthorized import AuthUnavailableError
